@@ -40,8 +40,13 @@
 
 #include <algorithm>
 #include <cstdlib>
+#include <filesystem>
 #include <iostream>
 #include <sstream>
+
+#include <sys/resource.h>
+#include <sys/wait.h>
+#include <unistd.h>
 
 namespace Opm { namespace verif {
     std::string lex_strip_comments(const std::string&);
@@ -848,6 +853,12 @@ static int corr(uint64_t seed, const std::string& tier, const std::string& outdi
                     i += len;
                 } else { main += parts[i]; ++i; }
             }
+            // a file that has been read (and closed - by its end or by ENDINC) is read again
+            if (!files.empty() && r.coin(1, 4)) {
+                int again = r.range(1, 2);
+                for (int q = 0; q < again; ++q) main += "INCLUDE\n '" + files[r.below(files.size())].first + "' /\n";
+                sink.count("deck.special.file_read_again");
+            }
             if (endAt == parts.size()) main += "END\n";
             if (withEnd && r.coin()) main += "GARBAGE after END 'x /\n";
             if (!withEnd && r.coin(1, 12)) { main += "ENDINC\nGARBAGE after ENDINC 'x /\n"; sink.count("deck.special.endinc_main"); }
@@ -929,6 +940,119 @@ static int corr(uint64_t seed, const std::string& tier, const std::string& outdi
             if (withEnd) sink.count("deck.with_END");
             sink.emit("deck.deck 100000 " + defArg + " " + recNames + " " + fileArg + " " + hex(main), ans);
             for (const auto& f : files) std::remove(f.first.c_str());
+        }
+    }
+
+    // (vii) the input stack: a small file system of statement lists (keywords without data, INCLUDE, ENDINC),
+    // files read several times, from several parents, closed by their end or by ENDINC, paths spelled in
+    // several ways, missing files, cycles -> real Parser::parseFile against `IncStack.parseFile`.  The real
+    // parser runs in a child process with a CPU limit: without a working recursion check it would never end.
+    if (!lexOnly) {
+        namespace fs = std::filesystem;
+        static const char* K[] = {"OIL", "WATER", "GAS", "DISGAS", "VAPOIL", "RUNSPEC", "GRID", "PROPS"};
+        const std::string base = fs::absolute(outdir + "/tmp").lexically_normal().string();
+        const int nCases = thorough ? 6000 : 700;
+        int nKilled = 0;
+        for (int n = 0; n < nCases; ++n) {
+            const int nf = r.range(2, 5);
+            const bool dagBias = r.coin(3, 4);
+            std::vector<std::vector<std::string>> fl(nf);
+            bool anyInc = false;
+            for (int i = 0; i < nf; ++i) {
+                int ns = r.range(0, 6);
+                for (int q = 0; q < ns; ++q) {
+                    int c = r.range(0, 99);
+                    if (c < 45) fl[i].push_back("k" + std::to_string(r.range(0, 7)));
+                    else if (c < 88) {
+                        int f;
+                        if (r.coin(1, 40)) f = nf;                                        // missing file
+                        else if (dagBias && i + 1 < nf && !r.coin(1, 12)) f = r.range(i + 1, nf - 1);
+                        else f = r.range(0, nf - 1);
+                        fl[i].push_back("i" + std::to_string(f)); anyInc = true;
+                    }
+                    else fl[i].push_back("e");
+                }
+            }
+            if (!anyInc) fl[0].push_back("i1");
+            const std::string dir = base + "/s" + std::to_string(n);
+            std::error_code ec;
+            fs::create_directories(dir + "/sub", ec);
+            // where the files live: now and then in sub/ under the base name of ANOTHER file (equal names, different paths)
+            std::vector<std::string> loc(nf);
+            for (int i = 0; i < nf; ++i) loc[i] = "f" + std::to_string(i) + ".inc";
+            for (int i = 1; i < nf; ++i) if (r.coin(1, 5)) {
+                std::string cand = "sub/f" + std::to_string(r.range(0, nf - 1)) + ".inc";
+                if (std::find(loc.begin(), loc.end(), cand) == loc.end()) { loc[i] = cand; sink.count("inc.same_name_other_directory"); }
+            }
+            auto fname = [&](int f) { return f < nf ? loc[f] : "f" + std::to_string(f) + ".inc"; };
+            for (int i = 0; i < nf; ++i) {
+                std::string text;
+                for (const auto& st : fl[i]) {
+                    if (st[0] == 'k') text += std::string(K[std::stoi(st.substr(1))]) + (r.coin(1, 6) ? " -- c\n" : "\n");
+                    else if (st[0] == 'e') text += r.coin(1, 4) ? "endinc\n" : "ENDINC\n";
+                    else {
+                        std::string nm = fname(std::stoi(st.substr(1))), pth;
+                        switch (r.range(0, 4)) { case 0: pth = nm; break; case 1: pth = "./" + nm; break; case 2: pth = "sub/../" + nm; break; default: pth = dir + "/" + nm; }
+                        text += "INCLUDE\n '" + pth + "' /\n";
+                    }
+                    if (r.coin(1, 10)) text += "\n";
+                }
+                if (r.coin(1, 5) && !text.empty()) text.pop_back();                      // no final newline
+                vh::spit(dir + "/" + fname(i), text);
+            }
+            const std::string root = dir + "/" + fname(0);
+            std::string ans = "killed";
+            int pfd[2];
+            if (pipe(pfd) != 0) { std::cerr << "pipe failed\n"; return 2; }
+            std::cout.flush(); std::cerr.flush();
+            pid_t pid = fork();
+            if (pid == 0) {
+                close(pfd[0]);
+                struct rlimit rl; rl.rlim_cur = rl.rlim_max = 3; setrlimit(RLIMIT_CPU, &rl);
+                rl.rlim_cur = rl.rlim_max = (rlim_t) 4 << 30; setrlimit(RLIMIT_AS, &rl);
+                std::string a;
+                Opm::ParseContext ctx; Opm::ErrorGuard errors;
+                ctx.update(Opm::ParseContext::PARSE_MISSING_INCLUDE, Opm::InputErrorAction::THROW_EXCEPTION);
+                try {
+                    auto deck = parser.parseFile(root, ctx, errors);
+                    errors.clear();
+                    a = "ok ";
+                    if (deck.size() == 0) a += "-";
+                    for (size_t j = 0; j < deck.size(); ++j) {
+                        int idx = -1;
+                        for (int q = 0; q < 8; ++q) if (deck[j].name() == K[q]) idx = q;
+                        if (j) a += ",";
+                        a += std::to_string(idx);
+                    }
+                } catch (const std::bad_alloc&) { a = "out-of-memory"; }
+                catch (const std::exception&) { a = "err"; }
+                catch (...) { a = "err"; }
+                ssize_t w = write(pfd[1], a.data(), a.size()); (void) w;
+                _exit(0);
+            }
+            close(pfd[1]);
+            if (pid > 0) {
+                std::string got; char buf[4096]; ssize_t k;
+                while ((k = read(pfd[0], buf, sizeof buf)) > 0) got.append(buf, (size_t) k);
+                int stt = 0; waitpid(pid, &stt, 0);
+                if (WIFEXITED(stt) && WEXITSTATUS(stt) == 0 && !got.empty()) ans = got;
+            }
+            close(pfd[0]);
+            fs::remove_all(dir, ec);
+            std::string fa;
+            for (int i = 0; i < nf; ++i) {
+                if (i) fa += ";";
+                if (fl[i].empty()) fa += "-";
+                for (size_t q = 0; q < fl[i].size(); ++q) { if (q) fa += ","; fa += fl[i][q]; }
+            }
+            { std::map<std::string, int> cnt; bool endinc = false; for (const auto& f : fl) for (const auto& st : f) { if (st[0] == 'i') cnt[st]++; if (st[0] == 'e') endinc = true; }
+              bool twice = false; for (const auto& kv : cnt) if (kv.second >= 2) twice = true;
+              if (twice) sink.count(ans.rfind("ok", 0) == 0 ? "inc.file_named_twice.ok" : "inc.file_named_twice.err");
+              if (endinc) sink.count("inc.with_endinc"); }
+            sink.count(ans == "err" ? "inc.err" : (ans.rfind("ok", 0) == 0 ? "inc.ok" : "inc.killed"));
+            sink.emit("inc.run 4000 0 " + fa, ans);
+            // a parser that does not end on cyclic includes costs the CPU limit per case: three of them are evidence enough
+            if (ans == "killed" || ans == "out-of-memory") { if (++nKilled >= 3) { sink.count("inc.stopped_after_killed"); break; } }
         }
     }
 
